@@ -7,6 +7,7 @@ durations / RFC 3339 timestamps / IP addresses are abstract parameters (`Cel`, `
 hold for every instance, no law about them is assumed.
 -/
 import OpenFGAVerif.Model.Condition
+import OpenFGAVerif.Gen.Condition
 namespace OpenFGAVerif.C25
 open OpenFGAVerif.Model.Condition
 
@@ -494,5 +495,927 @@ theorem mistyped_is_error {E : Type} (std : Std) (cel : Cel E) (c : Cond E) (tup
     simp at hc'; subst hc'
     obtain ⟨t, tv, hd, hcv⟩ := h4 k r pv hk hpres
     exact absurd hcv (hbad t tv hd)
+
+
+/-! ## The conversion table -/
+
+/-- element-wise relation between two lists of the same length -/
+inductive Pointwise {α β : Type} (R : α → β → Prop) : List α → List β → Prop
+  | nil : Pointwise R [] []
+  | cons {a b as bs} : R a b → Pointwise R as bs → Pointwise R (a :: as) (b :: bs)
+
+theorem convert_any (std : Std) (v : JVal) : convert std .any v = .ok (.any v) := by
+  cases v <;> simp [convert]
+
+theorem convert_bool_iff (std : Std) (v : JVal) (tv : TVal) :
+    convert std .bool v = .ok tv ↔ ∃ b, v = .bool b ∧ tv = .bool b := by
+  cases v <;> simp [convert, eq_comm]
+
+theorem convert_string_iff (std : Std) (v : JVal) (tv : TVal) :
+    convert std .string v = .ok tv ↔ ∃ s, v = .str s ∧ tv = .str s := by
+  cases v <;> simp [convert, eq_comm]
+
+theorem convert_duration_iff (std : Std) (v : JVal) (tv : TVal) :
+    convert std .duration v = .ok tv ↔ ∃ s d, v = .str s ∧ std.parseDuration s = some d ∧ tv = .dur d := by
+  cases v <;> simp [convert]
+  rename_i s
+  cases h : std.parseDuration s <;> simp [eq_comm]
+
+theorem convert_timestamp_iff (std : Std) (v : JVal) (tv : TVal) :
+    convert std .timestamp v = .ok tv ↔ ∃ s t, v = .str s ∧ std.parseRFC3339 s = some t ∧ tv = .ts t := by
+  cases v <;> simp [convert]
+  rename_i s
+  cases h : std.parseRFC3339 s <;> simp [eq_comm]
+
+theorem convert_ipaddress_iff (std : Std) (v : JVal) (tv : TVal) :
+    convert std .ipaddress v = .ok tv ↔ ∃ s a, v = .str s ∧ std.parseIP s = some a ∧ tv = .ip a := by
+  cases v <;> simp [convert]
+  rename_i s
+  cases h : std.parseIP s <;> simp [eq_comm]
+
+theorem convertList_ok_iff (std : Std) (t : PType) (xs : List JVal) (ys : List TVal) :
+    convertList std t xs = .ok ys ↔ Pointwise (fun x y => convert std t x = .ok y) xs ys := by
+  induction xs generalizing ys with
+  | nil =>
+    cases ys with
+    | nil => simp [convertList]; exact .nil
+    | cons y ys => simp [convertList]; intro h; cases h
+  | cons x xs ih =>
+    simp only [convertList]
+    cases hx : convert std t x with
+    | typeErr => simp; intro h; cases h; simp_all
+    | panic => simp; intro h; cases h; simp_all
+    | ok y =>
+      simp only
+      cases hxs : convertList std t xs with
+      | typeErr =>
+        simp; intro h; cases h with | cons h1 h2 => exact absurd ((ih _).mpr h2) (by simp [hxs])
+      | panic =>
+        simp; intro h; cases h with | cons h1 h2 => exact absurd ((ih _).mpr h2) (by simp [hxs])
+      | ok ys' =>
+        constructor
+        · intro h; simp at h; subst h; exact .cons hx ((ih _).mp hxs)
+        · intro h
+          cases h with
+          | cons h1 h2 =>
+            rw [hx] at h1; simp at h1; subst h1
+            have := (ih _).mpr h2; rw [hxs] at this; simp at this; subst this; rfl
+
+theorem convertFields_ok_iff (std : Std) (t : PType) (fs : List (String × JVal)) (gs : List (String × TVal)) :
+    convertFields std t fs = .ok gs ↔
+      Pointwise (fun f g => f.1 = g.1 ∧ convert std t f.2 = .ok g.2) fs gs := by
+  induction fs generalizing gs with
+  | nil =>
+    cases gs with
+    | nil => simp [convertFields]; exact .nil
+    | cons g gs => simp [convertFields]; intro h; cases h
+  | cons f fs ih =>
+    obtain ⟨k, x⟩ := f
+    simp only [convertFields]
+    cases hx : convert std t x with
+    | typeErr => simp; intro h; cases h; simp_all
+    | panic => simp; intro h; cases h; simp_all
+    | ok y =>
+      simp only
+      cases hxs : convertFields std t fs with
+      | typeErr =>
+        simp; intro h; cases h with | cons h1 h2 => exact absurd ((ih _).mpr h2) (by simp [hxs])
+      | panic =>
+        simp; intro h; cases h with | cons h1 h2 => exact absurd ((ih _).mpr h2) (by simp [hxs])
+      | ok gs' =>
+        constructor
+        · intro h; simp at h; subst h; exact .cons ⟨rfl, hx⟩ ((ih _).mp hxs)
+        · intro h
+          cases h with
+          | cons h1 h2 =>
+            rename_i g gs''
+            obtain ⟨k', y'⟩ := g
+            simp at h1; obtain ⟨rfl, h1⟩ := h1
+            rw [hx] at h1; simp at h1; subst h1
+            have := (ih _).mpr h2; rw [hxs] at this; simp at this; subst this; rfl
+
+/-- **list<T>** converts element by element, in order, and fails if any element fails -/
+theorem convert_list_iff (std : Std) (t : PType) (v : JVal) (tv : TVal) :
+    convert std (.list t) v = .ok tv ↔
+      ∃ xs ys, v = .list xs ∧ tv = .list ys ∧ Pointwise (fun x y => convert std t x = .ok y) xs ys := by
+  cases v <;> simp [convert]
+  rename_i xs
+  cases h : convertList std t xs with
+  | typeErr => simp; intro ys _ hf; exact absurd ((convertList_ok_iff std t xs ys).mpr hf) (by simp [h])
+  | panic => simp; intro ys _ hf; exact absurd ((convertList_ok_iff std t xs ys).mpr hf) (by simp [h])
+  | ok ys =>
+    simp
+    constructor
+    · intro e; exact ⟨ys, e.symm, (convertList_ok_iff std t xs ys).mp h⟩
+    · rintro ⟨ys', rfl, hf⟩
+      have := (convertList_ok_iff std t xs ys').mpr hf; rw [h] at this; simp at this; simp [this]
+
+/-- **map<T>** requires an object; keys are kept verbatim (they are strings by construction), every value
+is converted to T -/
+theorem convert_map_iff (std : Std) (t : PType) (v : JVal) (tv : TVal) :
+    convert std (.map t) v = .ok tv ↔
+      ∃ fs gs, v = .obj fs ∧ tv = .map gs ∧
+        Pointwise (fun f g => f.1 = g.1 ∧ convert std t f.2 = .ok g.2) fs gs := by
+  cases v <;> simp [convert]
+  rename_i fs
+  cases h : convertFields std t fs with
+  | typeErr => simp; intro gs _ hf; exact absurd ((convertFields_ok_iff std t fs gs).mpr hf) (by simp [h])
+  | panic => simp; intro gs _ hf; exact absurd ((convertFields_ok_iff std t fs gs).mpr hf) (by simp [h])
+  | ok gs =>
+    simp
+    constructor
+    · intro e; exact ⟨gs, e.symm, (convertFields_ok_iff std t fs gs).mp h⟩
+    · rintro ⟨gs', rfl, hf⟩
+      have := (convertFields_ok_iff std t fs gs').mpr hf; rw [h] at this; simp at this; simp [this]
+
+
+/-! ## numeric conversions -/
+
+theorem bitlen_le_iff (n k : Nat) : bitlen n ≤ k ↔ n < 2 ^ k := by
+  unfold bitlen
+  by_cases h : n = 0
+  · subst h; simp [Nat.pow_pos]
+  · simp only [h, if_false]
+    rw [Nat.add_one_le_iff, Nat.log2_lt h]
+
+theorem lt_two_pow_bitlen (n : Nat) : n < 2 ^ bitlen n := (bitlen_le_iff n _).mp (Nat.le_refl _)
+
+theorem two_pow_bitlen_pred_le (n : Nat) (h : 0 < n) : 2 ^ (bitlen n - 1) ≤ n := by
+  unfold bitlen
+  have hn : n ≠ 0 := Nat.pos_iff_ne_zero.mp h
+  simp only [hn, if_false, Nat.add_sub_cancel]
+  exact Nat.log2_self_le hn
+
+theorem bitlen_pos (n : Nat) (h : 0 < n) : 0 < bitlen n := by
+  unfold bitlen; simp [Nat.pos_iff_ne_zero.mp h]
+
+/-- the exact value of `m·2^e` truncated towards zero (exact when the value is an integer) -/
+def truncNat (m : Nat) (e : Int) : Nat := if e ≥ 0 then m * 2 ^ e.toNat else m / 2 ^ e.natAbs
+
+theorem truncNat_lt (m : Nat) (e : Int) (h : e + bitlen m ≤ 63) : truncNat m e < 2 ^ 63 := by
+  unfold truncNat
+  have hm := lt_two_pow_bitlen m
+  by_cases he : e ≥ 0
+  · simp only [he, if_true]
+    have hk : e.toNat + bitlen m ≤ 63 := by omega
+    calc m * 2 ^ e.toNat < 2 ^ bitlen m * 2 ^ e.toNat :=
+          Nat.mul_lt_mul_of_lt_of_le hm (Nat.le_refl _) (Nat.pow_pos (by decide))
+      _ = 2 ^ (bitlen m + e.toNat) := (Nat.pow_add 2 _ _).symm
+      _ ≤ 2 ^ 63 := Nat.pow_le_pow_right (by decide) (by omega)
+  · simp only [he, if_false]
+    have hk : bitlen m ≤ 63 + e.natAbs := by omega
+    apply Nat.div_lt_of_lt_mul
+    calc m < 2 ^ bitlen m := hm
+      _ ≤ 2 ^ (e.natAbs + 63) := Nat.pow_le_pow_right (by decide) (by omega)
+      _ = 2 ^ e.natAbs * 2 ^ 63 := Nat.pow_add 2 _ _
+
+theorem truncNat_ge (m : Nat) (e : Int) (hm : 0 < m) (h : e + bitlen m > 63) : 2 ^ 63 ≤ truncNat m e := by
+  unfold truncNat
+  have hlow := two_pow_bitlen_pred_le m hm
+  have hb := bitlen_pos m hm
+  by_cases he : e ≥ 0
+  · simp only [he, if_true]
+    calc 2 ^ 63 ≤ 2 ^ (bitlen m - 1 + e.toNat) := Nat.pow_le_pow_right (by decide) (by omega)
+      _ = 2 ^ (bitlen m - 1) * 2 ^ e.toNat := Nat.pow_add 2 _ _
+      _ ≤ m * 2 ^ e.toNat := Nat.mul_le_mul_right _ hlow
+  · simp only [he, if_false]
+    rw [Nat.le_div_iff_mul_le (Nat.pow_pos (by decide))]
+    calc 2 ^ 63 * 2 ^ e.natAbs = 2 ^ (63 + e.natAbs) := (Nat.pow_add 2 _ _).symm
+      _ ≤ 2 ^ (bitlen m - 1) := Nat.pow_le_pow_right (by decide) (by omega)
+      _ ≤ m := hlow
+
+/-- the exact integer an integer-valued `big.Float` stands for -/
+def bfToInt : BF → Int
+  | .zero _ => 0
+  | .inf _ => 0
+  | .fin neg m e => if neg then -(truncNat m e : Int) else (truncNat m e : Int)
+
+/-- saturation to the int64 range -/
+def clampI64 (z : Int) : Int := if z > maxInt64 then maxInt64 else if z < minInt64 then minInt64 else z
+
+/-- a `big.Float` in the shape Go keeps it: finite values have a non-zero mantissa -/
+def BFWF : BF → Prop
+  | .fin _ m _ => 0 < m
+  | _ => True
+
+/-- **`Float.Int64()` as used by the converters = the exact integer, saturated** (the accuracy result that
+would signal the saturation is discarded by the caller) -/
+theorem int64_eq_clamp (x : BF) (hwf : BFWF x) (hint : x.isInt = true) : x.int64 = clampI64 (bfToInt x) := by
+  cases x with
+  | zero n => simp [BF.int64, bfToInt, clampI64, maxInt64, minInt64]
+  | inf n => simp [BF.isInt] at hint
+  | fin neg m e =>
+    have hm : 0 < m := hwf
+    have hb := bitlen_pos m hm
+    have hgpos : ¬ (e + (bitlen m : Int) ≤ 0) := by
+      intro hle
+      unfold BF.isInt at hint
+      by_cases he : e ≥ 0
+      · omega
+      · simp [he, hle] at hint
+    unfold BF.int64
+    simp only [hgpos, if_false]
+    by_cases h63 : e + (bitlen m : Int) ≤ 63
+    · have hlt := truncNat_lt m e h63
+      simp only [h63, if_true]
+      have ht : (if e ≥ 0 then m * 2 ^ e.toNat else m / 2 ^ e.natAbs) = truncNat m e := rfl
+      rw [ht]
+      unfold bfToInt clampI64 maxInt64 minInt64
+      cases neg <;> simp <;> omega
+    · have hge := truncNat_ge m e hm (by omega)
+      simp only [h63, if_false]
+      unfold bfToInt clampI64 maxInt64 minInt64
+      cases neg <;> simp <;> omega
+
+theorem int64_le_max (x : BF) : x.int64 ≤ maxInt64 := by
+  cases x with
+  | zero n => simp [BF.int64, maxInt64]
+  | inf n => cases n <;> simp [BF.int64, maxInt64, minInt64]
+  | fin neg m e =>
+    unfold BF.int64
+    simp only
+    split
+    · simp [maxInt64]
+    · split
+      · rename_i h63
+        have hlt := truncNat_lt m e h63
+        have ht : (if e ≥ 0 then m * 2 ^ e.toNat else m / 2 ^ e.natAbs) = truncNat m e := rfl
+        rw [ht]; unfold maxInt64
+        cases neg <;> simp <;> omega
+      · cases neg <;> simp [maxInt64, minInt64]
+
+/-- **int**: accepted exactly when the number is an integer; the result is that integer saturated to
+[MinInt64, MaxInt64] (so 1e100 becomes MaxInt64, not an error) -/
+theorem int_conversion (bf : BF) (hwf : BFWF bf) :
+    numFromBF .int64 bf = if bf.isInt then .ok (.int (clampI64 (bfToInt bf))) else .typeErr := by
+  unfold numFromBF
+  cases h : bf.isInt with
+  | false => simp
+  | true => simp [int64_eq_clamp bf hwf h]
+
+/-- **uint**: integer, not negative; the value goes through `Int64()` as well, so it saturates at
+MaxInt64 — the upper half of the uint64 range is unreachable -/
+theorem uint_conversion (bf : BF) (hwf : BFWF bf) (n : Nat) :
+    numFromBF .uint64 bf = .ok (.uint n) ↔
+      bf.isInt = true ∧ 0 ≤ clampI64 (bfToInt bf) ∧ n = (clampI64 (bfToInt bf)).toNat := by
+  unfold numFromBF
+  cases h : bf.isInt with
+  | false => simp
+  | true =>
+    simp only [Bool.not_true, Bool.false_eq_true, if_false, int64_eq_clamp bf hwf h, true_and]
+    by_cases hneg : clampI64 (bfToInt bf) < 0
+    · simp [hneg]; omega
+    · simp [hneg]; constructor
+      · intro e; exact ⟨by omega, e.symm⟩
+      · rintro ⟨_, e⟩; exact e.symm
+
+theorem uint_rejects_negative (bf : BF) (hwf : BFWF bf) (h : bf.isInt = true) (hneg : bfToInt bf < 0) :
+    numFromBF .uint64 bf = .typeErr := by
+  unfold numFromBF
+  have : clampI64 (bfToInt bf) < 0 := by unfold clampI64 maxInt64 minInt64; split <;> (try split) <;> omega
+  simp [h, int64_eq_clamp bf hwf h, this]
+
+theorem uint_never_above_maxInt64 (bf : BF) (n : Nat) (h : numFromBF .uint64 bf = .ok (.uint n)) :
+    n ≤ 9223372036854775807 := by
+  unfold numFromBF at h
+  cases hi : bf.isInt with
+  | false => simp [hi] at h
+  | true =>
+    simp only [hi, Bool.not_true, Bool.false_eq_true, if_false] at h
+    have := int64_le_max bf
+    unfold maxInt64 at this
+    split at h
+    · simp at h
+    · simp at h; omega
+
+/-- **double from a string**: accepted exactly when the 64-bit parse result is itself a float64
+(`Float64()` accuracy Exact) — "0.5" is, "0.1" is not -/
+theorem double_conversion (bf : BF) (bits : Nat) :
+    numFromBF .float64 bf = .ok (.double bits) ↔ bf.float64Exact = some bits := by
+  unfold numFromBF
+  cases h : bf.float64Exact <;> simp
+
+/-- a JSON number for a double parameter is passed through untouched (`value.(T)` succeeds) -/
+theorem double_of_number (b : Nat) : numericConv .float64 (.num b) = .ok (.double b) := by
+  simp [numericConv]
+
+theorem ofF64_wf (b : Nat) : BFWF (BF.ofF64 b) := by
+  unfold BF.ofF64
+  split
+  · trivial
+  · split
+    · trivial
+    · rename_i h; exact Nat.pos_of_ne_zero h
+
+/-- a JSON number for an int parameter: NaN panics (direct callers only), otherwise integral ⇒ saturated
+value, non-integral or ±Inf ⇒ error -/
+theorem int_of_number (b : Nat) :
+    numericConv .int64 (.num b) =
+      if F64.isNaN b then .panic
+      else if (BF.ofF64 b).isInt then .ok (.int (clampI64 (bfToInt (BF.ofF64 b)))) else .typeErr := by
+  unfold numericConv
+  simp only [show (NumKind.int64 = NumKind.float64) = False by simp, if_false]
+  split
+  · rfl
+  · exact int_conversion _ (ofF64_wf b)
+
+theorem inf_is_not_int (b : Nat) (h : F64.isInf b = true) : (BF.ofF64 b).isInt = false := by
+  simp [BF.ofF64, h, BF.isInt]
+
+/-- bool, null, lists and objects never convert to a numeric type; there is no bool-from-string either -/
+theorem numeric_rejects_non_numbers (k : NumKind) (v : JVal)
+    (h : (∀ b, v ≠ .num b) ∧ (∀ s, v ≠ .str s)) : numericConv k v = .typeErr := by
+  cases v <;> simp_all [numericConv]
+
+
+/-! ### the parse pipeline keeps mantissas non-zero -/
+
+theorem roundNE_pos (prec m : Nat) (sticky : Bool) (hp : 0 < prec) (hm : 0 < m) : 0 < (roundNE prec m sticky).1 := by
+  unfold roundNE
+  simp only
+  split
+  · exact hm
+  · rename_i hl
+    have hb := bitlen_pos m hm
+    have hq : 0 < m / 2 ^ (bitlen m - prec) := by
+      apply Nat.div_pos _ (Nat.pow_pos (by decide))
+      calc 2 ^ (bitlen m - prec) ≤ 2 ^ (bitlen m - 1) := Nat.pow_le_pow_right (by decide) (by omega)
+        _ ≤ m := two_pow_bitlen_pred_le m hm
+    split <;> omega
+
+theorem mk_wf (prec : Nat) (neg : Bool) (m : Nat) (e : Int) (sticky : Bool) (hp : 0 < prec) :
+    BFWF (BF.mk prec neg m e sticky) := by
+  unfold BF.mk
+  split
+  · trivial
+  · rename_i hm
+    simp only
+    split
+    · trivial
+    · split
+      · trivial
+      · split
+        · trivial
+        · exact roundNE_pos prec m sticky hp (Nat.pos_of_ne_zero hm)
+
+theorem mul_wf (prec : Nat) (x y : BF) (hp : 0 < prec) : BFWF (BF.mul prec x y) := by
+  cases x <;> cases y <;> simp only [BF.mul] <;> first | exact mk_wf _ _ _ _ _ hp | trivial
+
+theorem quo_wf (prec : Nat) (x y : BF) (hp : 0 < prec) : BFWF (BF.quo prec x y) := by
+  cases x <;> cases y <;> simp only [BF.quo] <;> first | exact mk_wf _ _ _ _ _ hp | trivial
+
+theorem assembleBF_wf (neg : Bool) (mant fcount : Nat) (exp : Int) (ten : Bool) (bf : BF) (hm : 0 < mant)
+    (h : assembleBF neg mant fcount exp ten = some bf) : BFWF bf := by
+  unfold assembleBF at h
+  simp only at h
+  generalize ((if ten = true then exp else 0) - (fcount : Int)) = e5 at h
+  by_cases h1 : ((bitlen mant : Int) + (exp - fcount) < minExp ∨ (bitlen mant : Int) + (exp - fcount) > maxExp)
+  · rw [if_pos h1] at h; simp at h
+  · rw [if_neg h1] at h
+    by_cases h2 : e5 = 0
+    · rw [if_pos h2] at h
+      simp at h; subst h
+      split
+      · trivial
+      · exact roundNE_pos 64 mant false (by decide) hm
+    · rw [if_neg h2] at h
+      by_cases h3 : e5 < 0
+      · rw [if_pos h3] at h; simp at h; subst h; exact quo_wf 64 _ _ (by decide)
+      · rw [if_neg h3] at h; simp at h; subst h; exact mul_wf 64 _ _ (by decide)
+
+theorem roundNE_small (prec m : Nat) (s : Bool) (h : bitlen m ≤ prec) : roundNE prec m s = (m, 0) := by
+  unfold roundNE; simp [h]
+
+theorem assembleBF_exact (neg : Bool) (n : Nat) (hn : 0 < n) (hb : bitlen n ≤ 64) :
+    assembleBF neg n 0 0 true = some (.fin neg n 0) := by
+  have hbpos := bitlen_pos n hn
+  unfold assembleBF
+  simp only [roundNE_small 64 n false hb]
+  have h1 : ¬ ((bitlen n : Int) + (0 - ((0 : Nat) : Int)) < minExp ∨ (bitlen n : Int) + (0 - ((0 : Nat) : Int)) > maxExp) := by
+    unfold minExp maxExp; omega
+  rw [if_neg h1]
+  have h2 : ¬ ((0 : Int) - ((0 : Nat) : Int) + ((0 : Nat) : Int) + (bitlen n : Int) > maxExp) := by
+    unfold maxExp; omega
+  simp only [if_true, if_neg h2]
+  simp
+
+theorem parseUnsigned_wf (neg : Bool) (body : Bytes) (bf : BF) (h : parseUnsigned neg body = some bf) : BFWF bf := by
+  unfold parseUnsigned at h
+  split at h
+  rename_i mant cnt fcount rest _
+  split at h
+  · simp at h
+  · split at h
+    · simp at h
+    · split at h
+      · simp at h
+      · split at h
+        · simp at h; subst h; trivial
+        · rename_i hm
+          exact assembleBF_wf _ _ _ _ _ _ (Nat.pos_of_ne_zero hm) h
+
+/-- everything `big.ParseFloat` returns has a non-zero mantissa when finite -/
+theorem parseBF_wf (s : Bytes) (bf : BF) (h : parseBF s = some bf) : BFWF bf := by
+  unfold parseBF at h
+  split at h
+  · simp at h; subst h; trivial
+  · split at h
+    · simp at h; subst h; trivial
+    · split at h
+      · simp at h; subst h; trivial
+      · split at h
+        · simp at h
+        · split at h
+          · exact parseUnsigned_wf _ _ _ h
+          · split at h
+            · exact parseUnsigned_wf _ _ _ h
+            · exact parseUnsigned_wf _ _ _ h
+
+/-! ### plain decimal strings -/
+
+def digitsVal (ds : Bytes) : Nat := ds.foldl (fun a c => a * 10 + (c.toNat - 48)) 0
+
+theorem scanMant_digits (ds : Bytes) (acc cnt : Nat) (hd : ∀ c ∈ ds, isDigit c = true) :
+    scanMant ds acc cnt none = (ds.foldl (fun a c => a * 10 + (c.toNat - 48)) acc, cnt + ds.length, 0, []) := by
+  induction ds generalizing acc cnt with
+  | nil => simp [scanMant]
+  | cons c cs ih =>
+    have hc : isDigit c = true := hd c (by simp)
+    have h46 : c ≠ 46 := by intro e; subst e; simp [isDigit] at hc
+    simp only [scanMant, h46, false_and, if_false, hc, if_true, List.foldl_cons, List.length_cons]
+    rw [ih _ _ (fun x hx => hd x (by simp [hx]))]
+    simp; omega
+
+theorem scanExp_nil : scanExp [] = some (0, true, []) := rfl
+
+theorem parseUnsigned_digits (neg : Bool) (ds : Bytes) (hd : ∀ c ∈ ds, isDigit c = true)
+    (hpos : 0 < digitsVal ds) (hlt : digitsVal ds < 2 ^ 64) :
+    parseUnsigned neg ds = some (.fin neg (digitsVal ds) 0) := by
+  have hs : scanMant ds 0 0 none = (digitsVal ds, ds.length, 0, []) := by
+    have := scanMant_digits ds 0 0 hd
+    rw [Nat.zero_add] at this
+    exact this
+  have hlen : ¬ (ds.length = 0) := by
+    intro h
+    have : ds = [] := List.eq_nil_of_length_eq_zero h
+    subst this; simp [digitsVal] at hpos
+  have hm0 : ¬ (digitsVal ds = 0) := Nat.pos_iff_ne_zero.mp hpos
+  have hb64 : bitlen (digitsVal ds) ≤ 64 := (bitlen_le_iff _ _).mpr hlt
+  unfold parseUnsigned
+  rw [hs]
+  simp only [if_neg hlen, scanExp_nil, ne_eq, not_true_eq_false, if_false, if_neg hm0]
+  exact assembleBF_exact neg _ hpos hb64
+
+/-- **decimal strings**: a string of digits (no sign, point or exponent) denoting n with 0 < n < 2^64
+parses exactly to n -/
+theorem parseBF_digits (ds : Bytes) (hd : ∀ c ∈ ds, isDigit c = true)
+    (hpos : 0 < digitsVal ds) (hlt : digitsVal ds < 2 ^ 64) :
+    parseBF ds = some (.fin false (digitsVal ds) 0) := by
+  cases ds with
+  | nil => simp [digitsVal] at hpos
+  | cons c cs =>
+    have hc : isDigit c = true := hd c (by simp)
+    have hne : ∀ x : UInt8, isDigit x = false → c ≠ x := fun x hx e => by subst e; simp [hc] at hx
+    have h73 := hne 73 (by decide); have h105 := hne 105 (by decide)
+    have h43 := hne 43 (by decide); have h45 := hne 45 (by decide)
+    unfold parseBF
+    simp only [strInfU, strInfL, List.cons.injEq, h73, h105, h43, h45, false_and, or_self, if_false]
+    exact parseUnsigned_digits false (c :: cs) hd hpos hlt
+
+
+
+/-- **int from a decimal string**: digits denoting n (0 < n < 2^64) convert to min(n, MaxInt64) -/
+theorem int_from_decimal_string (std : Std) (ds : Bytes) (hd : ∀ c ∈ ds, isDigit c = true)
+    (hpos : 0 < digitsVal ds) (hlt : digitsVal ds < 2 ^ 64) :
+    convert std .int (.str ds) = .ok (.int (if digitsVal ds > 9223372036854775807 then 9223372036854775807 else digitsVal ds)) := by
+  have hp := parseBF_digits ds hd hpos hlt
+  simp only [convert, numericConv, hp]
+  rw [int_conversion _ (by exact hpos)]
+  simp only [BF.isInt, ge_iff_le, Int.le_refl, if_true]
+  simp only [bfToInt, truncNat, clampI64, maxInt64, minInt64]
+  simp
+  split <;> split <;> omega
+
+/-! ### no panic through the API -/
+
+mutual
+def noNaN : JVal → Bool
+  | .num b => !F64.isNaN b
+  | .list xs => noNaNList xs
+  | .obj fs => noNaNFields fs
+  | _ => true
+def noNaNList : List JVal → Bool
+  | [] => true
+  | x :: xs => noNaN x && noNaNList xs
+def noNaNFields : List (String × JVal) → Bool
+  | [] => true
+  | (_, x) :: xs => noNaN x && noNaNFields xs
+end
+
+mutual
+theorem noNaN_asInterface : ∀ pv : PVal, noNaN (asInterface pv) = true
+  | .null => by simp [asInterface, noNaN]
+  | .num b => by
+      unfold asInterface
+      split
+      · simp [noNaN]
+      · split
+        · split <;> simp [noNaN]
+        · rename_i h _; simp [noNaN, h]
+  | .str s => by simp [asInterface, noNaN]
+  | .bool b => by simp [asInterface, noNaN]
+  | .list xs => by simp only [asInterface, noNaN]; exact noNaN_asInterfaceList xs
+  | .struct fs => by simp only [asInterface, noNaN]; exact noNaN_asInterfaceFields fs
+theorem noNaN_asInterfaceList : ∀ xs : List PVal, noNaNList (asInterface.asInterfaceList xs) = true
+  | [] => by simp [asInterface.asInterfaceList, noNaNList]
+  | x :: xs => by
+      simp only [asInterface.asInterfaceList, noNaNList, Bool.and_eq_true]
+      exact ⟨noNaN_asInterface x, noNaN_asInterfaceList xs⟩
+theorem noNaN_asInterfaceFields : ∀ fs : List (String × PVal), noNaNFields (asInterface.asInterfaceFields fs) = true
+  | [] => by simp [asInterface.asInterfaceFields, noNaNFields]
+  | (k, x) :: xs => by
+      simp only [asInterface.asInterfaceFields, noNaNFields, Bool.and_eq_true]
+      exact ⟨noNaN_asInterface x, noNaN_asInterfaceFields xs⟩
+end
+
+theorem numFromBF_no_panic (k : NumKind) (bf : BF) : numFromBF k bf ≠ .panic := by
+  unfold numFromBF
+  cases k <;> simp only <;> repeat (first | split | simp)
+
+theorem numericConv_no_panic (k : NumKind) (v : JVal) (h : noNaN v = true) : numericConv k v ≠ .panic := by
+  cases v with
+  | num b =>
+    simp [noNaN] at h
+    simp only [numericConv]
+    split
+    · simp
+    · simp only [h, Bool.false_eq_true, if_false]; exact numFromBF_no_panic _ _
+  | str s =>
+    simp only [numericConv]
+    split
+    · simp
+    · exact numFromBF_no_panic _ _
+  | _ => simp [numericConv]
+
+theorem convert_no_panic (std : Std) : ∀ (t : PType) (v : JVal), noNaN v = true → convert std t v ≠ .panic := by
+  intro t
+  induction t with
+  | any => intro v _; cases v <;> simp [convert]
+  | bool => intro v _; cases v <;> simp [convert]
+  | string => intro v _; cases v <;> simp [convert]
+  | int => intro v h; simp only [convert]; exact numericConv_no_panic _ _ h
+  | uint => intro v h; simp only [convert]; exact numericConv_no_panic _ _ h
+  | double => intro v h; simp only [convert]; exact numericConv_no_panic _ _ h
+  | duration => intro v _; cases v <;> simp [convert]; split <;> simp
+  | timestamp => intro v _; cases v <;> simp [convert]; split <;> simp
+  | ipaddress => intro v _; cases v <;> simp [convert]; split <;> simp
+  | list t ih =>
+    intro v h
+    cases v <;> simp [convert]
+    rename_i xs
+    simp [noNaN] at h
+    have hl : convertList std t xs ≠ .panic := by
+      induction xs with
+      | nil => simp [convertList]
+      | cons x xs ihx =>
+        simp [noNaNList] at h
+        simp only [convertList]
+        have := ih x h.1
+        have := ihx h.2
+        split <;> (try split) <;> simp_all
+    split <;> simp_all
+  | map t ih =>
+    intro v h
+    cases v <;> simp [convert]
+    rename_i fs
+    simp [noNaN] at h
+    have hl : convertFields std t fs ≠ .panic := by
+      induction fs with
+      | nil => simp [convertFields]
+      | cons f fs ihx =>
+        obtain ⟨k, x⟩ := f
+        simp [noNaNFields] at h
+        simp only [convertFields]
+        have := ih x h.1
+        have := ihx h.2
+        split <;> (try split) <;> simp_all
+    split <;> simp_all
+
+/-- **no panic through the API**: whatever protobuf value arrives, `AsInterface` never hands a NaN number to
+a converter (NaN becomes the string "NaN"), so `big.NewFloat(NaN)` is unreachable -/
+theorem pipeline_no_panic (std : Std) (t : PType) (pv : PVal) : convert std t (asInterface pv) ≠ .panic :=
+  convert_no_panic std t _ (noNaN_asInterface pv)
+
+theorem castLoop_no_panic (std : Std) (m : Ctx) (params : List (String × TypeRef)) :
+    castLoop std m params ≠ .panic := by
+  induction params with
+  | nil => simp [castLoop]
+  | cons p ps ih =>
+    obtain ⟨k, r⟩ := p
+    simp only [castLoop]
+    split
+    · exact ih
+    · split
+      · simp
+      · have := pipeline_no_panic std ‹PType› ‹PVal›
+        split <;> (try split) <;> simp_all
+
+theorem castContext_no_panic (std : Std) (params : List (String × TypeRef)) (m : Ctx) :
+    castContext std params m ≠ .panic := by
+  unfold castContext
+  split
+  · simp
+  · split
+    · simp
+    · exact castLoop_no_panic _ _ _
+
+theorem evaluate_no_panic {E : Type} (std : Std) (cel : Cel E) (c : Cond E) (first : Ctx) (rest : List Ctx) :
+    evaluate std cel c first rest ≠ .error .panic := by
+  unfold evaluate
+  cases compileOk cel c with
+  | false => simp
+  | true =>
+    simp only [Bool.not_true, Bool.false_eq_true, if_false]
+    cases hcast : castContext std c.params (mergeCtx first rest) with
+    | typeErr => simp
+    | panic => exact absurd hcast (castContext_no_panic _ _ _)
+    | ok typed => simp only; cases cel.eval c.expr (getLast typed) <;> simp
+
+/-- `EvaluateTupleCondition` never reports a panic for a freshly built condition -/
+theorem evalTuple_no_panic {E : Type} (std : Std) (cel : Cel E) (condName : String) (tup : Option Ctx)
+    (ec : Option (Cond E)) (req : Option Ctx) : evalTuple std cel condName tup ec req ≠ .error .panic := by
+  unfold evalTuple
+  split
+  · simp
+  · cases ec with
+    | none => simp
+    | some c =>
+      simp only
+      split
+      · simp
+      · cases hev : evaluate std cel c (req.getD []) tup.toList with
+        | error e =>
+          simp only
+          intro h; simp at h; subst h
+          exact evaluate_no_panic std cel c _ _ hev
+        | ok r => simp only; split <;> simp
+
+/-! ### witnesses of the observed table (evaluated by the kernel) -/
+
+def noStd : Std := ⟨fun _ => none, fun _ => none, fun _ => none⟩
+def intOf : Res TVal → Option Int | .ok (.int i) => some i | _ => none
+def uintOf : Res TVal → Option Nat | .ok (.uint n) => some n | _ => none
+def doubleOf : Res TVal → Option Nat | .ok (.double b) => some b | _ => none
+def isTypeErr : Res TVal → Bool | .typeErr => true | _ => false
+def isPanic : Res TVal → Bool | .panic => true | _ => false
+
+/-- observation (b): out-of-range integers saturate instead of failing — "1e100", "-1e100", the number
+1e19 (bits 0x43E158E460913D00), and uint "18446744073709551615" (MaxUint64) all clamp to ±MaxInt64 -/
+theorem witness_saturation :
+    intOf (convert noStd .int (.str [49, 101, 49, 48, 48])) = some 9223372036854775807 ∧
+    intOf (convert noStd .int (.str [45, 49, 101, 49, 48, 48])) = some (-9223372036854775808) ∧
+    intOf (convert noStd .int (.num 0x43E158E460913D00)) = some 9223372036854775807 ∧
+    uintOf (convert noStd .uint (.str [49, 56, 52, 52, 54, 55, 52, 52, 48, 55, 51, 55, 48, 57, 53, 53, 49, 54, 49, 53]))
+      = some 9223372036854775807 := by decide
+
+/-- the integer forms the table accepts: "1.0", "+7", "10e-1", "1p3" (binary exponent), "5." — and
+rejects: "1.5", "", "0x10", " 1", "1_000", "true" -/
+theorem witness_int_strings :
+    intOf (convert noStd .int (.str [49, 46, 48])) = some 1 ∧
+    intOf (convert noStd .int (.str [43, 55])) = some 7 ∧
+    intOf (convert noStd .int (.str [49, 48, 101, 45, 49])) = some 1 ∧
+    intOf (convert noStd .int (.str [49, 112, 51])) = some 8 ∧
+    intOf (convert noStd .int (.str [53, 46])) = some 5 ∧
+    isTypeErr (convert noStd .int (.str [49, 46, 53])) = true ∧
+    isTypeErr (convert noStd .int (.str [])) = true ∧
+    isTypeErr (convert noStd .int (.str [48, 120, 49, 48])) = true ∧
+    isTypeErr (convert noStd .int (.str [32, 49])) = true ∧
+    isTypeErr (convert noStd .int (.str [49, 95, 48, 48, 48])) = true ∧
+    isTypeErr (convert noStd .int (.str [116, 114, 117, 101])) = true ∧
+    isTypeErr (convert noStd .int (.bool true)) = true ∧
+    isTypeErr (convert noStd .int .null) = true := by decide
+
+/-- uint rejects negatives (numbers and strings), accepts -0 -/
+theorem witness_uint :
+    isTypeErr (convert noStd .uint (.num 0xBFF0000000000000)) = true ∧        -- -1.0
+    isTypeErr (convert noStd .uint (.str [45, 49])) = true ∧                  -- "-1"
+    uintOf (convert noStd .uint (.str [45, 48])) = some 0 ∧                   -- "-0"
+    uintOf (convert noStd .uint (.num 0x401C000000000000)) = some 7 := by decide
+
+/-- observation (c): a double given as a string must be exactly a float64: "0.5" and "1e10" are, "0.1" and
+"9223372036854775807" are not; "inf" is accepted as +Inf; a JSON number always passes, NaN included -/
+theorem witness_double :
+    doubleOf (convert noStd .double (.str [48, 46, 53])) = some 0x3FE0000000000000 ∧
+    doubleOf (convert noStd .double (.str [49, 101, 49, 48])) = some 0x4202A05F20000000 ∧
+    isTypeErr (convert noStd .double (.str [48, 46, 49])) = true ∧
+    isTypeErr (convert noStd .double (.str [57, 50, 50, 51, 51, 55, 50, 48, 51, 54, 56, 53, 52, 55, 55, 53, 56, 48, 55])) = true ∧
+    doubleOf (convert noStd .double (.str [105, 110, 102])) = some 0x7FF0000000000000 ∧
+    doubleOf (convert noStd .double (.num 0x7FF8000000000001)) = some 0x7FF8000000000001 := by decide
+
+/-- a NaN float64 handed to the int converter *directly* panics (`big.NewFloat(NaN)`); through a protobuf
+value it is the string "NaN" and is rejected -/
+theorem witness_nan :
+    isPanic (convert noStd .int (.num 0x7FF8000000000001)) = true ∧
+    isTypeErr (convert noStd .int (asInterface (.num 0x7FF8000000000001))) = true ∧
+    isTypeErr (convert noStd .double (asInterface (.num 0x7FF8000000000001))) = true := by decide
+
+
+/-! ## Ties to the regenerated facts (`Gen.Condition`, from the Go source on every run) -/
+
+/-- the `TYPE_NAME_*` constant of a model type name -/
+def constName : TypeName → String
+  | .any => "ANY" | .bool => "BOOL" | .string => "STRING" | .int => "INT" | .uint => "UINT"
+  | .double => "DOUBLE" | .duration => "DURATION" | .timestamp => "TIMESTAMP" | .map => "MAP"
+  | .list => "LIST" | .ipaddress => "IPADDRESS" | .unspecified => "UNSPECIFIED" | .other _ => "?"
+
+/-- the Go converter each branch of `convert` mirrors -/
+def converterName : TypeName → String
+  | .any => "anyTypeConverterFunc"
+  | .bool => "primitiveTypeConverterFunc[bool]"
+  | .string => "primitiveTypeConverterFunc[string]"
+  | .int => "numericTypeConverterFunc[int64]"
+  | .uint => "numericTypeConverterFunc[uint64]"
+  | .double => "numericTypeConverterFunc[float64]"
+  | .duration => "durationTypeConverterFunc"
+  | .timestamp => "timestampTypeConverterFunc"
+  | .map => "mapTypeConverterFunc"
+  | .list => "listTypeConverterFunc"
+  | .ipaddress => "ipaddressTypeConverterFunc"
+  | _ => "?"
+
+/-- the type names the model's `genericCount` registers, in the source's registration order -/
+def registeredNames : List TypeName :=
+  [.any, .bool, .string, .int, .uint, .double, .duration, .timestamp, .map, .list, .ipaddress]
+
+/-- **registration table**: the `registerParamType…` calls of the source are exactly the model's table —
+same type names, same generic-type counts, and each type is served by the converter `convert` mirrors -/
+theorem tie_registrations :
+    Gen.Condition.registrations =
+      registeredNames.map (fun t => (constName t, (genericCount t).getD 99, converterName t)) := by decide
+
+/-- nothing else is registered in the model (UNSPECIFIED and unknown enum values do not decode) -/
+theorem registered_iff (t : TypeName) : (genericCount t).isSome = true ↔ t ∈ registeredNames := by
+  cases t <;> simp [genericCount, registeredNames]
+
+/-- `EvaluateTupleCondition`: guards in order, the returns, and **the merge order** — the request fields
+are the first map, the tuple's stored fields are appended after them, then `Evaluate` gets them in
+that order -/
+theorem tie_evalTuple :
+    Gen.Condition.evalTupleIfs =
+      ["tupleKey.GetCondition().GetName() == \"\"",
+       "evaluableCondition == nil || tupleKey.GetCondition().GetName() != evaluableCondition.GetName()",
+       "context != nil", "tupleContext != nil", "err != nil",
+       "len(conditionResult.MissingParameters) > 0"] ∧
+    Gen.Condition.evalTupleReturns =
+      ["true, nil", "false, err", "false, err", "false, condition.NewEvaluationError(…)",
+       "conditionResult.ConditionMet, nil"] ∧
+    Gen.Condition.evalTupleAssigns.drop 3 =
+      ["contextFields := []map[string]*structpb.Value{ {}, }",
+       "contextFields = []map[string]*structpb.Value{context.GetFields()}",
+       "tupleContext := tupleKey.GetCondition().GetContext()",
+       "contextFields = append(contextFields, tupleContext.GetFields())",
+       "conditionResult, err := evaluableCondition.Evaluate(ctx, contextFields...)"] := by decide
+
+/-- `Evaluate`: clone the first map, copy the later ones over it in order, cast, collect the unresolved
+declared parameters, evaluate; unknown ⇒ `ConditionMet: false` -/
+theorem tie_evaluate :
+    Gen.Condition.evaluateAssigns.drop 1 =
+      ["err := e.Compile()", "contextFields := contextMaps[0]",
+       "contextFields = map[string]*structpb.Value{}",
+       "clonedContextFields := maps.Clone(contextFields)",
+       "typedParams, err := e.CastContextToTypedParameters(clonedContextFields)",
+       "activation, err := e.celEnv.PartialVars(typedParams)",
+       "_, ok := activation.ResolveName(key)",
+       "missingParameters = append(missingParameters, key)",
+       "out, details, err := e.celProgram.ContextEval(ctx, activation)",
+       "cost := details.ActualCost()", "evaluationCost = *cost",
+       "conditionMetVal, err := out.ConvertToNative(reflect.TypeOf(false))",
+       "conditionMet, ok := conditionMetVal.(bool)"] ∧
+    Gen.Condition.evaluateRanges =
+      ["_, fields := range contextMaps[1:]", "key, _ := range e.GetParameters()"] ∧
+    Gen.Condition.evaluateIfs =
+      ["err := e.Compile(); err != nil", "contextFields == nil", "err != nil", "err != nil",
+       "_, ok := activation.ResolveName(key); ok", "err != nil", "details != nil", "cost != nil",
+       "celtypes.IsUnknown(out)", "err != nil", "!ok"] ∧
+    Gen.Condition.evaluateCalls.filter (fun c => c = "maps.Clone" ∨ c = "maps.Copy" ∨
+        c = "e.CastContextToTypedParameters" ∨ c = "e.celProgram.ContextEval" ∨ c = "activation.ResolveName") =
+      ["maps.Clone", "maps.Copy", "e.CastContextToTypedParameters", "activation.ResolveName",
+       "e.celProgram.ContextEval"] ∧
+    Gen.Condition.evaluateReturns =
+      ["emptyEvaluationResult, NewEvaluationError(…)", "emptyEvaluationResult, NewEvaluationError(…)",
+       "emptyEvaluationResult, NewEvaluationError(…)", "emptyEvaluationResult, NewEvaluationError(…)",
+       "EvaluationResult{ ConditionMet: false, MissingParameters: missingParameters, Cost: evaluationCost, }, nil",
+       "emptyEvaluationResult, NewEvaluationError(…)", "emptyEvaluationResult, NewEvaluationError(…)",
+       "EvaluationResult{ ConditionMet: conditionMet, MissingParameters: missingParameters, Cost: evaluationCost, }, nil"] := by
+  decide
+
+/-- `CastContextToTypedParameters`: empty context ⇒ `nil, nil`; no declared parameters ⇒ error; the loop
+ranges over the *declared* parameters, skips absent ones (`continue`), decodes, converts
+`contextValue.AsInterface()` and fails on the first error -/
+theorem tie_cast :
+    Gen.Condition.castIfs =
+      ["len(contextMap) == 0", "len(parameterTypes) == 0", "!ok", "err != nil", "err != nil"] ∧
+    Gen.Condition.castReturns =
+      ["nil, nil", "nil, &ParameterTypeError{…}", "nil, &ParameterTypeError{…}",
+       "nil, &ParameterTypeError{…}", "converted, nil"] ∧
+    Gen.Condition.castAssigns =
+      ["parameterTypes := e.GetParameters()", "converted := make(map[string]any, len(contextMap))",
+       "contextValue, ok := contextMap[parameterKey]",
+       "varType, err := types.DecodeParameterType(paramTypeRef)",
+       "convertedParam, err := varType.ConvertValue(contextValue.AsInterface())",
+       "converted[parameterKey] = convertedParam"] ∧
+    Gen.Condition.castRanges = ["parameterKey, paramTypeRef := range parameterTypes"] := by decide
+
+/-- `Compile()` reports the error of `compile()` only inside `compileOnce.Do` (what
+`evaluateAfterFailedCompile` models) -/
+theorem tie_compile_once :
+    Gen.Condition.compileOnceCalls = ["e.compileOnce.Do", "e.compile"] ∧
+    Gen.Condition.compileOnceAssigns = ["err := e.compile()", "compileErr = err"] ∧
+    Gen.Condition.compileOnceReturns = ["", "compileErr"] := by decide
+
+/-- `numericTypeConverterFunc`: `value.(T)` first, then float64 through `big.NewFloat`, then strings through
+`big.ParseFloat(·, 10, 64, 0)`; per kind: int64 needs `IsInt` and takes `Int64()`; uint64 additionally
+rejects `< 0`; float64 rejects accuracy Above/Below -/
+theorem tie_numeric :
+    Gen.Condition.numericAssigns =
+      ["v, ok := value.(T)", "floatValue, ok := value.(float64)", "bigFloat := big.NewFloat(floatValue)",
+       "stringValue, ok := value.(string)", "f, _, err := big.ParseFloat(stringValue, 10, 64, 0)",
+       "bigFloat = f", "n := *new(T)", "numericValue, _ := bigFloat.Int64()",
+       "numericValue, _ := bigFloat.Int64()", "numericValue, a := bigFloat.Float64()"] ∧
+    Gen.Condition.numericIfs =
+      ["ok", "!ok", "!ok", "err != nil", "!bigFloat.IsInt()", "!bigFloat.IsInt()", "numericValue < 0",
+       "a == big.Above || a == big.Below"] ∧
+    Gen.Condition.numericCases =
+      ["int64: !bigFloat.IsInt()", "uint64: !bigFloat.IsInt() ; numericValue < 0",
+       "float64: a == big.Above || a == big.Below", "default: "] ∧
+    Gen.Condition.parseFloatArgs = "stringValue, 10, 64, 0" ∧
+    Gen.Condition.numericReturns =
+      ["v, nil", "nil, fmt.Errorf(…)", "nil, fmt.Errorf(…)", "nil, fmt.Errorf(…)", "numericValue, nil",
+       "nil, fmt.Errorf(…)", "nil, fmt.Errorf(…)", "uint64(…), nil", "nil, fmt.Errorf(…)",
+       "numericValue, nil", "nil, fmt.Errorf(…)"] := by decide
+
+/-- regression tie for F14: no error path of the numeric converter renders the `big.Float` with
+`String()` directly (quadratic in the decimal exponent) -/
+theorem tie_numeric_no_bigfloat_string :
+    Gen.Condition.numericCalls.contains "bigFloat.String" = false := by decide
+
+/-- the other converters: one type assertion, one stdlib call -/
+theorem tie_converters :
+    Gen.Condition.primitiveAssigns = ["v, ok := value.(T)"] ∧ Gen.Condition.primitiveIfs = ["!ok"] ∧
+    Gen.Condition.anyConvReturns = ["value, nil"] ∧
+    Gen.Condition.durationAssigns = ["v, ok := value.(string)", "d, err := time.ParseDuration(v)"] ∧
+    Gen.Condition.timestampAssigns = ["v, ok := value.(string)", "d, err := time.Parse(time.RFC3339, v)"] ∧
+    Gen.Condition.ipaddressAssigns =
+      ["ipaddr, ok := value.(IPAddress)", "v, ok := value.(string)", "d, err := ParseIPAddress(v)"] ∧
+    Gen.Condition.parseIPCalls = ["netip.ParseAddr", "addr.Unmap"] ∧
+    Gen.Condition.listConvAssigns =
+      ["v, ok := value.([]any)", "converted := make([]any, len(v))",
+       "convertedItem, err := genericTypes[0].ConvertValue(item)", "converted[index] = convertedItem"] ∧
+    Gen.Condition.mapConvAssigns =
+      ["v, ok := value.(map[string]any)", "converted := make(map[string]any, len(v))",
+       "convertedItem, err := genericTypes[0].ConvertValue(item)", "converted[key] = convertedItem"] ∧
+    Gen.Condition.listConvIfs = ["!ok", "err != nil"] ∧ Gen.Condition.mapConvIfs = ["!ok", "err != nil"] ∧
+    Gen.Condition.convertValueCalls = ["pt.typedParamConverter"] := by decide
+
+/-- `DecodeParameterType`: unknown type name, wrong number of generic types, recursive decode -/
+theorem tie_decode :
+    Gen.Condition.decodeIfs =
+      ["!ok", "len(conditionParamType.GetGenericTypes()) != int(paramTypedef.genericTypeCount)", "err != nil"] ∧
+    Gen.Condition.decodeAssigns =
+      ["paramTypedef, ok := paramTypeDefinitions[conditionParamType.GetTypeName()]",
+       "genericTypes := make([]ParameterType, 0, paramTypedef.genericTypeCount)",
+       "genericType, err := DecodeParameterType(encodedGenericType)",
+       "genericTypes = append(genericTypes, *genericType)"] := by decide
+
+/-! ## Non-vacuity: the hypotheses of the main theorems are met by concrete values -/
+
+/-- a toy CEL: the expression is a parameter name; its value must be a bool -/
+def toyCel : Cel String where
+  compile := fun _ _ => true
+  eval := fun e env => match env e with
+    | some (.bool b) => .bool b
+    | some _ => .other
+    | none => .unknown
+
+def toyCond : Cond String := { name := "c", params := [("x", .mk .bool []), ("y", .mk .int [])], expr := "x" }
+def toyReq : Ctx := [("x", .bool false), ("y", .num 0x401C000000000000)]   -- x = false, y = 7
+def toyTup : Ctx := [("x", .bool true)]                                     -- stored x = true
+
+/-- stored `x = true` overrides the request's `x = false`; `y` comes from the request -/
+example : evalTuple noStd toyCel "c" (some toyTup) (some toyCond) (some toyReq) = .ok true := by rfl
+/-- without the stored context the request's value is used -/
+example : evalTuple noStd toyCel "c" none (some toyCond) (some toyReq) = .ok false := by rfl
+/-- `y` is declared, not referenced by the expression, and absent: an error that names it -/
+example : evalTuple noStd toyCel "c" (some toyTup) (some toyCond) none = .error (.missing ["y"]) := by rfl
+/-- `y` mistyped -/
+example : evalTuple noStd toyCel "c" (some toyTup) (some toyCond) (some [("y", .str [97])]) = .error .paramType := by rfl
+/-- the hypotheses of `evalTuple_spec` hold for the first example -/
+example : AllPresent toyCond.params (mergedCtx (some toyReq) (some toyTup)) := by
+  intro k r hm
+  simp [toyCond] at hm
+  rcases hm with ⟨rfl, _⟩ | ⟨rfl, _⟩ <;> decide
+example : getLast (mergedCtx (some toyReq) (some toyTup)) "x" = some (.bool true) :=
+  stored_wins _ _ toyTup "x" _ rfl (by rfl)
+
 
 end OpenFGAVerif.C25
